@@ -5,7 +5,8 @@ Case line (see lean/TbotVerif/Model/Life.lean, namespace Wire):
     bases   = comma list over  pg pk (PreConnectInitializer)  cg ck (Connector)  lg lk (lab-host: the connector
               is then the REAL connector.ConsoleConnector, whose _connect enters host.clone() first)  ig ik (Initializer)
               w (board.PowerControl)  sg sk (Shell)  qg qk (PostShellInitializer)  h (class overrides init());
-              second letter = style of the step's context manager (generator / class), id = position
+              second letter = style of the step's context manager (g generator / k class; u generator / t class
+              whose clean-up HANDLES the exception passing through it — not for the lab-host), id = position
     delay   = powercycle_delay in ticks
     session = <gap>;<E|B|K>;<faults>;<body>     one `with m: body` on the ONE machine object of the case
               faults over e<id> x<id> (enter/exit of a step)  c<id> n<id> o<id> f<id> (power_check raises /
@@ -21,6 +22,12 @@ THEOREMS = [
     "C13.machSteps_eq_specOrder", "C13.runBody_spec", "C13.session_spec", "C13.run_spec",
     "C13.machEnter_fresh", "C13.exc_iff_raised", "C13.power_off_count", "C13.power_off_exactly_once", "C13.power_off_position",
     "C13.refused_no_power", "C13.conn_exit_after_power_off", "C13.fresh_entry_reinit", "C13.powercycle_delay_exact",
+    # steps whose context manager handles the exception passing through it
+    "C13.unwind_spec_handling", "C13.enterUnit_spec", "C13.enterUnits_split", "C13.enterSteps_split", "C13.enterSteps_spec",
+    "C13.machEnter_fresh_handling", "C13.session_spec_handling", "C13.expectedExc_plain", "C13.exc_iff_raised_handling",
+    "C13.no_raise_no_exc", "C13.body_exception_always_propagates", "C13.setup_exception_always_propagates",
+    "C13.teardown_fault_propagates_unless_handled", "C13.pendingFault_eq_some_iff", "C13.handled_steps_still_torn_down",
+    "C13.spec_eq_plain", "C13.spec_eq_plain_of_no_handlers", "C13.handlesOf_mro",
 ]
 LEAN_MODULES = ["TbotVerif.Props.C13"]
 QUICK_N, THOROUGH_N = 15000, 90000
@@ -28,7 +35,9 @@ QUICK_BUDGET, THOROUGH_BUDGET = 40, 600
 CASE_WALL = 20
 RULE = ("machine classes composed with type() from 0-3 instrumented mixins of each kind (PreConnectInitializer, "
         "Initializer, PostShellInitializer; generator- and class-style context managers), a stub Connector (or the real "
-        "ConsoleConnector over a stub lab-host) and Shell, "
+        "ConsoleConnector over a stub lab-host) and Shell; in a quarter of the cases one to three of the steps' context "
+        "managers HANDLE the exception passing through them (class style: __exit__ returns True; generator style: "
+        "except around the yield), "
         "board.PowerControl at every position among the initialisers, optional init() override, bases mostly in "
         "documented order and sometimes shuffled; 1-3 sessions on one machine object, each nesting the context 1-4 "
         "times with markers and an optional raise, with no / one / two / several injected faults over every enter, "
@@ -37,8 +46,10 @@ RULE = ("machine classes composed with type() from 0-3 instrumented mixins of ea
         "non-trivial = at least one injected fault fired or the body raised in some session; distinct = distinct case lines")
 TRUSTED = ["CPython's contextlib.ExitStack / contextmanager behave as modelled in Life.unwind (tested by the same cases)",
            "flat compositions: the MRO of type(name, bases, ns) lists the mixins in declaration order"]
-ASSUMPTIONS = ["a step whose context manager handles (suppresses) exceptions in its clean-up is exercised with set-up and body "
-               "faults only; an exception raised by a TEARDOWN inside such a step is handled by it — outside the model",
+ASSUMPTIONS = ["the context of the lab-host clone of a ConsoleConnector never handles (suppresses) exceptions: handling the "
+               "exception of a failing connect() makes the generator ConsoleConnector._connect return without yielding "
+               "(contextlib raises RuntimeError) — a misuse, outside the domain (Life.Kind.mayHandle); every other "
+               "step's context manager may handle, with faults at every set-up, body and tear-down point",
                "enter/exit histories are balanced (`with` statements); at most one PowerControl and one connector/shell "
                "per class (Python's MRO cannot express more)",
                "mixins subclass their Initializer base directly (indirect subclasses are skipped by the cls.__bases__ "
@@ -53,13 +64,12 @@ def run_impl(line):
 
 def lean_line(line):
     """the line the Lean side sees: the model has no notion of HOW the class was assembled (`<delay>@<k>`: the last
-    k bases were a class of their own, entered once before) nor of a step that handles exceptions in its clean-up
-    (styles t/u) — both must be invisible in the observation for the fault sets the generator uses with them"""
+    k bases were a class of their own, entered once before; `+m`, `+r`) — that must be invisible in the observation.
+    (The styles t/u of a step that handles exceptions in its clean-up ARE modelled: `Step.handles`.)"""
     toks = line.split()
     if len(toks) < 2:
         return line
-    bases = ",".join((b[0] + {"t": "k", "u": "g"}.get(b[1:], b[1:])) if len(b) == 2 else b for b in toks[0].split(","))
-    return " ".join([bases, toks[1].replace("+m", "").replace("+r", "").split("@")[0]] + toks[2:])
+    return " ".join([toks[0], toks[1].replace("+m", "").replace("+r", "").split("@")[0]] + toks[2:])
 
 
 def model_request(line, impl):
@@ -141,20 +151,19 @@ def gen_case(rng, params):
     pts = fault_points(bases)
     delay = str(rng.choice([0, 0, 3, 5, 10]))
     r = rng.random()
-    if r < 0.15:
-        # one step handles exceptions in its clean-up; then only set-up and body faults are injected (an exception
-        # raised by a teardown inside such a step is legitimately handled by it — outside the model)
+    if r < 0.25:
+        # one to three steps handle exceptions in their clean-up (all fault points stay in play: what an outer handling
+        # step does to the exception raised by an inner tear-down is part of the model)
         cms = [i for i, b in enumerate(bases) if b[0] in CM and b[0] != "l"]   # (a handling lab-host clone() makes the real ConsoleConnector._connect generator not yield: a misuse, not a case)
-        i = rng.choice(cms)
-        bases[i] = bases[i][0] + {"g": "u", "k": "t"}[bases[i][1]]
-        pts = [p for p in pts if p[0] not in "xf"]
-    elif r < 0.4:
+        for i in rng.sample(cms, min(len(cms), rng.choice([1, 1, 2, 3]))):
+            bases[i] = bases[i][0] + {"g": "u", "k": "t"}[bases[i][1]]
+    elif r < 0.45:
         # the class is derived from a complete machine class that has been used before
         delay += "@%d" % rng.randint(2, max(2, len(bases) - 1))
-    elif r < 0.55:
+    elif r < 0.6:
         # one class of the composition provides two kinds of step
         delay += "+m"
-    elif r < 0.65:
+    elif r < 0.7:
         # a step mixin is refined by a subclass that overrides the hook and delegates to it
         delay += "+r"
     sessions = [gen_session(rng, bases, pts) for _ in range(rng.choice([1, 1, 2, 3]))]
@@ -165,7 +174,9 @@ def exhaustive(params):
     """every single fault point and every pair of fault points (body raise included as a point), for every
     composition with <= 1 mixin of each kind (plus two with 2 initialisers), PowerControl at every position
     among the initialisers, bodies nesting the context 1-4 times; then every pair of sessions
-    (faulted, fault-free) to see the machine come up again"""
+    (faulted, fault-free) to see the machine come up again.  Then, for the compositions with <= 6 bases, every choice
+    of one or two steps whose context manager HANDLES the exception passing through it (class style for one, generator
+    style for the other), with every single fault point, every pair and (<= 5 bases) every triple of them"""
     comps = []
     for npre, nini, npost in itertools.product([0, 1], [0, 1, 2], [0, 1]):
         for wpos in list(range(nini + 1)) + [None]:
@@ -187,6 +198,22 @@ def exhaustive(params):
                 body = opens + (["r1"] if "body" in combo else ["m1"]) + ["]"] * len(opens)
                 yield (f"{','.join(bases)} 4 0;E;{','.join(faults) or '.'};{','.join(body)} "
                        f"1;E;.;{','.join(body)}")
+    for bases in comps:
+        if len(bases) > 6:
+            continue
+        cms = [i for i, b in enumerate(bases) if b[0] in CM and b[0] != "l"]
+        pts = fault_points(bases) + ["body"]
+        combos = [()] + [(p,) for p in pts] + list(itertools.combinations(pts, 2))
+        if len(bases) <= 5:
+            combos += list(itertools.combinations(pts, 3))
+        for hs in [(i,) for i in cms] + list(itertools.combinations(cms, 2)):
+            hb = list(bases)
+            for n, i in enumerate(hs):
+                hb[i] = hb[i][0] + "tu"[n]
+            for combo in combos:
+                faults = sorted(p for p in combo if p != "body")
+                body = ["r1"] if "body" in combo else ["m1"]
+                yield f"{','.join(hb)} 0 0;E;{','.join(faults) or '.'};{','.join(body)}"
 
 
 # ---- evidence ----------------------------------------------------------------------------
@@ -201,7 +228,8 @@ def classify(line, obs):
           "power=" + (str([b for b in bases if b[0] in "iw"].index("w")) if "w" in bases else "none"),
           "hook=%d" % ("h" in bases), "sessions=%d" % (len(toks) - 2), "delay=" + ("0" if toks[1].replace("+m", "").replace("+r", "").split("@")[0] == "0" else ">0"),
           "class=" + ("derived" if "@" in toks[1] else "two-role-mixin" if "+m" in toks[1] else "refined-mixin" if "+r" in toks[1] else "flat"),
-          "suppressing-step=%d" % any(len(b) == 2 and b[1] in "tu" for b in bases)]
+          "handling-steps=%d" % sum(len(b) == 2 and b[1] in "tu" for b in bases)]
+    handling = [i for i, b in enumerate(bases) if len(b) == 2 and b[1] in "tu"]
     canon = ["i" if b == "w" else b[0] for b in bases if b != "h" and b[0] != "l"]
     ks.append("order=" + ("documented" if canon == sorted(canon, key="pcisq".index) else "shuffled"))
     for (gap, sty, faults, body), o in zip(_sessions(line), obs.split()):
@@ -217,6 +245,16 @@ def classify(line, obs):
         evs = [] if trace == "." else trace.split(",")
         for t in _fired(fl, evs):
             ks.append("fired=" + t[0])
+        if handling:
+            # tear-down faults (exit of a registered step, power-off on the exit stack) that fired in a composition with
+            # handling steps, and whether one of them was handled by a step further out (did not reach the caller)
+            td = [t for t in _fired(fl, evs) if t[0] == "x" or (t[0] == "f" and "o" + t[1:] not in fl)]
+            if td:
+                ks.append("handling+teardown-fault")
+                ks.append("handling+teardown-fault:" + ("reached-caller" if exc in td else "handled-or-replaced"))
+            if any(e[0] == "r" for e in evs) or _fired(fl, [e for e in evs if e[0] in "ecoh"]):
+                ks.append("handling+own-exception:" + ("reached-caller" if exc != "-" and exc not in td else
+                                                       "replaced-by-teardown-fault" if exc != "-" else "LOST"))
         ks.append("exc=" + (exc[0] if exc != "-" else "none") + sty)
         if any(e[0] == "z" for e in evs):
             ks.append("slept")
